@@ -329,9 +329,9 @@ func damageShape(ds []lib.Damage) string {
 
 func init() {
 	lib.Register(&lib.Property{
-		ID:    "C05",
-		Level: "fault_enumeration",
-		Rule: "for each reference build (files of 0, 10, 64K-1, 64K, 128K, 3*64K+100 bytes, 9 MiB; nested dirs; symlinks incl. dangling and to a directory) every damage of the boundary list is applied alone (bit flips at first/last byte of every block, truncation to every block boundary ±1, extension inside/up to/past the last block, fill of empty files, delete, kind swaps incl. directory -> symlink to a sibling with equal child names, retarget/delete symlinks) plus random combinations of 2-5 damages; each damaged tree is validated fail-fast and in wounds-file mode; truth = byte-wise comparison of the damaged tree with the reference; wounds are read from the .pww file by the independent decoder. distinct = distinct (build, damage classes, path + boundary class of the offset)",
+		ID:          "C05",
+		Level:       "fault_enumeration",
+		Rule:        "for each reference build (files of 0, 10, 64K-1, 64K, 128K, 3*64K+100 bytes, 9 MiB; nested dirs; symlinks incl. dangling and to a directory) every damage of the boundary list is applied alone (bit flips at first/last byte of every block, truncation to every block boundary ±1, extension inside/up to/past the last block, fill of empty files, delete, kind swaps incl. directory -> symlink to a sibling with equal child names, retarget/delete symlinks) plus random combinations of 2-5 damages; each damaged tree is validated fail-fast and in wounds-file mode; truth = byte-wise comparison of the damaged tree with the reference; wounds are read from the .pww file by the independent decoder. distinct = distinct (build, damage classes, path + boundary class of the offset)",
 		Assumptions: []string{"a non-nil error from non-fail-fast Validate counts as 'not declared valid' and leaves the coverage clauses unevaluated for that case (counted)", "offsets at or beyond the damaged file's own length are covered by the length clause, not the per-offset clause"},
 		Cases:       c05Cases,
 		Run:         c05Run,
